@@ -144,11 +144,13 @@ class Scenario:
         return "node " + " ".join(self.ops)
 
 
-def mesh(rng, n, mode="tun-router", full=True, **kw):
-    """n connected nodes in the given mode, handshakes completed"""
+def mesh(rng, n, mode="tun-router", full=True, gateway=None, **kw):
+    """n connected nodes in the given mode, handshakes completed; `gateway`: node that also claims the default route"""
     s = Scenario()
     for i in range(1, n + 1):
         claims = ["%s/24" % bytes([10, 0, i, 0]).hex()] if mode.startswith("tun") else None
+        if claims and gateway == i:
+            claims.append("00000000/0")
         s.node(i, mode=mode, claims=claims, **kw)
     for i in range(2, n + 1):
         s.add("C.%d.%d" % (i, rng.randrange(1, i) if not full else 1), "A")
